@@ -158,6 +158,10 @@ def shrink(scenario):
                 candidate = clone(scenario)
                 candidate["requests"][index]["start"] = 0
                 yield candidate
+            if request.get("fault"):
+                candidate = clone(scenario)
+                del candidate["requests"][index]["fault"]
+                yield candidate
         for candidate in shrink(dict(scenario, requests=[scenario["requests"][0]])):
             first = candidate["requests"][0]
             others = []
@@ -207,7 +211,8 @@ def shrink(scenario):
 # ------------------------------------------------------------------------------------------------------ oracle
 def execute(scenario):
     references, reasons = {}, {}
-    for request in scenario["requests"]:
+    observed = [r for r in scenario["requests"] if not r.get("fault")]
+    for request in observed:
         op = request["op"]
         references[request["rid"]] = pristine(_alone, scenario, with_kann(op["ahb"], op["planted"]), request["rid"])
         reasons[request["rid"]] = pristine(
@@ -218,11 +223,11 @@ def execute(scenario):
     except LIVENESS_ERRORS as error:
         return liveness_verdict(error, scenario)
     verdict = base_verdict(sim, scenario)
-    verdict["observed"] = len(scenario["requests"])
-    verdict["completed"] = sum(1 for o in outcomes.values() if "ok" in o)
+    verdict["observed"] = len(observed)
+    verdict["completed"] = sum(1 for r in observed if "ok" in outcomes.get(r["rid"], {}))
     verdict["nontrivial"] = False
     verdict["probes"]["validations"] = len(scenario["requests"])
-    for request in scenario["requests"]:
+    for request in observed:
         rid = request["rid"]
         _judge(request, strip_msg(outcomes.get(rid, {"missing": True})), references[rid], reasons[rid], verdict)
     return verdict
